@@ -296,7 +296,8 @@ def showScheme : Scheme → String
 /-- The request as the RoundTripper gets it. -/
 def showSent (probes : List Bytes) (r : Loop.Req) : String :=
   "|".intercalate [showScheme r.url.scheme, showUser r.url.user, encodeHex r.url.host, encodeHex r.url.path,
-    encodeHex r.method, encodeHex r.hostField, b01 r.body, showProbes (wireHeaders r) probes]
+    encodeHex r.method, encodeHex r.hostField, b01 r.body,
+    if probes.isEmpty then "." else "/".intercalate (probes.map fun k => encodeList (wireValues (wireHeaders r) k))]
 
 /-- The request as an origin server reads it off the wire. -/
 def showWire (probes : List Bytes) (r : Loop.Req) : String :=
@@ -330,6 +331,23 @@ def laneLoop : List String → String := runLoopLane false
 /-- `c11wire …` same input → each request as the origin server read it. -/
 def laneWire : List String → String := runLoopLane true
 
+/-- `c11api <policies> <jar bit, AllowGetMethodPayload bit> <request S|U|H|P|M|_|B> <request headers> <request cookies>
+<common headers> <common cookies> <script> <probe keys>`: the call as the caller configured it. -/
+def laneApi : List String → String
+  | [ps, jar, req, rh, rc, ch, cc, script, probes] =>
+    match decodePolicies ps, decodeHeaders rh, decodeCookies rc, decodeHeaders ch, decodeCookies cc,
+        decodeScript script, decodeList probes with
+    | some ps, some rh, some rc, some ch, some cc, some script, some probes =>
+      match decodeReq req rh with
+      | some r =>
+        let (sent, e) := apiStart ps (jar.take 1 == "1")
+          { commonHeaders := ch, commonCookies := cc, allowGetPayload := jar.drop 1 != "0" }
+          { url := r.url, method := r.method, headers := rh, cookies := rc, body := r.body } script
+        showEnd e ++ " " ++ toString sent.length ++ " " ++ ";".intercalate (sent.map (showSent probes))
+      | none => "bad-op"
+    | _, _, _, _, _, _, _ => "bad-op"
+  | _ => "bad-op"
+
 /-- `c11fam <ops> <j> <lane> <args…>`: lane `<lane>` with the policies client `j` of the family
 enforces. -/
 def laneFam : List String → String
@@ -342,6 +360,7 @@ def laneFam : List String → String
         | "c11policyx" => lanePolicyX (ps :: rest)
         | "c11loop" => laneLoop (ps :: rest)
         | "c11wire" => laneWire (ps :: rest)
+        | "c11api" => laneApi (ps :: rest)
         | _ => "bad-op"
       | none => "no-client"
     | _, _ => "bad-op"
@@ -362,6 +381,7 @@ def lanes : List (String × (List String → String)) := [
   ("c11policyx", lanePolicyX),
   ("c11loop", laneLoop),
   ("c11wire", laneWire),
+  ("c11api", laneApi),
   ("c11fam", laneFam)
 ]
 
